@@ -106,6 +106,7 @@ Fixpoint first_probe (e : shenv) (stdin : list bytes) (ls : list line) : option 
       | LPipeline ((n, args) :: _) => if beq n (bs "probe") then argv_words e args else first_probe e stdin r
       | LAssign h (RCapture ((n, args) :: _)) => if beq n (bs "probe") then argv_words e args else first_probe e stdin r
       | LAssign _ _ => match exec_line e l with Some e' => first_probe e' stdin r | None => first_probe e stdin r end
+      | LCall n _ => if beq n (bs "body0") then first_probe e stdin r else None     (* other calls are not followed *)
       | _ => first_probe e stdin r
       end
   end.
